@@ -62,7 +62,8 @@ CONSTANTS
   FillA, FillB, \* fill values (integers); "both2" uses fill_left(FillA) fill_right(FillB)
   Scalars, NegScalars, \* integer scalars of vector/scalar operations (specials are added from Specials)
   BuildMode,    \* TRUE: the case is built by actions (simulation); FALSE: Init enumerates all cases
-  AllOrders     \* TRUE: every loop over a vector explores every iteration order
+  AllOrders,    \* TRUE: every loop over a vector explores every iteration order
+  EmitOn        \* TRUE: finished cases are printed for the replay harness
 
 VARIABLES
   pc,     \* control state of the evaluation
@@ -791,5 +792,5 @@ Case ==
       kf |-> kf,
       impl |-> IF kf = "" THEN [err |-> "", v |-> <<>>] ELSE [err |-> Impl.err, v |-> VecJson(Impl.v)]]
 
-Emit == pc # "end" \/ PrintT("@@TR " \o ToJson(Case))
+Emit == ~EmitOn \/ pc # "end" \/ PrintT("@@TR " \o ToJson(Case))
 =============================================================================
